@@ -99,7 +99,7 @@ def run(prog, rep):
         check_retry(rep, "C09.1", fn, b, i, c, site + ":eintr")
         name = c.get("callee")
         if name in IO_NATIVES:
-            res = run_scenario(fn, b, i, c, -1, EAGAIN, extra_facts=[("socket->blocking", "!=", 0)])
+            res = run_scenario(fn, b, i, c, -1, EAGAIN, extra_facts=[("%s->blocking" % fn.param_names()[0], "!=", 0)])
             ok = not res["escapes"] and res["retried"] > 0
             if ok:
                 rep.ob("C09.1", fn, site + ":wouldblock", True,
@@ -112,11 +112,12 @@ def run(prog, rep):
     rep.floor("C09.1", 12, "7 EINTR sites + 5 would-block sites")
 
     # C09.2 byte accounting
-    for fname, native, bufp, lenp in (("p_socket_receive", "recv", "buffer", "buflen"),
-                                      ("p_socket_receive_from", "recvfrom", "buffer", "buflen"),
-                                      ("p_socket_send", "send", "buffer", "buflen"),
-                                      ("p_socket_send_to", "sendto", "buffer", "buflen")):
+    for fname, native, bufi, leni in (("p_socket_receive", "recv", 1, 2),
+                                      ("p_socket_receive_from", "recvfrom", 2, 3),
+                                      ("p_socket_send", "send", 1, 2),
+                                      ("p_socket_send_to", "sendto", 2, 3)):
         fn = u.fn(fname)
+        bufp, lenp = fn.param_names()[bufi], fn.param_names()[leni]
         cs = [c for (b, i, c) in fn.calls() if c.get("callee") == native]
         if len(cs) != 1:
             rep.ob("C09.2", fn, "call:" + native, False, "%d calls of %s" % (len(cs), native), fn.loc[0])
@@ -273,7 +274,7 @@ def run(prog, rep):
     res = None
     for (f2, b, i, c, site) in sites:
         if c.get("callee") == "connect":
-            res = run_scenario(f2, b, i, c, -1, EINPROGRESS, extra_facts=[("socket->blocking", "!=", 0)], watch=[WAIT, "p_socket_check_connect_result"],
+            res = run_scenario(f2, b, i, c, -1, EINPROGRESS, extra_facts=[("%s->blocking" % f2.param_names()[0], "!=", 0)], watch=[WAIT, "p_socket_check_connect_result"],
                                excuse_other_calls=False)
     okw = res is not None and WAIT in res["reached"] and "p_socket_check_connect_result" in res["reached"]
     rep.ob("C09.6", fn, "inprogress", okw, "EINPROGRESS on a blocking socket: waits for writability, then reads SO_ERROR" if okw else
@@ -301,6 +302,9 @@ def run(prog, rep):
            "reads SO_ERROR and returns TRUE exactly when it is 0" if (okg and okv) else "check_connect_result does not return (SO_ERROR == 0)", cr.loc[0])
     rep.floor("C09.6", 3)
 
+
+# generic robustness battery: renaming every local/parameter in these files must not change any verdict
+RENAME_LOCALS = ['src/psocket.c']
 
 SELFTEST = [
     dict(id="accept-wouldblock-dropped", file="src/psocket.c", expect="C09.1",
